@@ -290,6 +290,11 @@ func runC05(w *W) {
 		}
 		w.genTokens(4, judge)
 		w.genBoundaryPairs(judge)
+		w.genFillBlock(fillStep(w), judge)
+		w.genBufferFill(judge)
+		w.genSpaceInDense([]int{1500, 9000}, judge)
+		w.genAlignedPartial(10, 110, 3, judge)
+		w.genAlignedPartial(130, 180, 2, judge)
 		w.genAtoms(judge)
 		w.genStringBytes([]int{0, 31, 32, 62, 63}, judge)
 		// truncations of valid documents: every length (small), sampled (large)
@@ -404,10 +409,12 @@ func (w *W) c05Deep(st *c05State, th bool) {
 				if !w.mine(idx) {
 					continue
 				}
-				if !th && d == 1<<20 && api == "Interface" && kind != 1 {
+				if d == 1<<20 && api == "Interface" && kind != 1 {
 					// Array.Interface pre-allocates its whole remaining extent at every level: a
-					// 1M-deep array takes minutes (and terabytes of address space) before it gets
-					// anywhere; only the thorough tier waits for that. Objects get there in seconds.
+					// 2^20-deep array needs terabytes of address space and minutes before it gets
+					// anywhere, and the process is then killed by the kernel rather than by Go —
+					// nothing a monitor could attribute. Objects reach the same depth in seconds;
+					// arrays and alternations are run to 10^5.
 					continue
 				}
 				doc := gen.Nest(d, kind, "1")
